@@ -45,20 +45,23 @@ def c01_space(tier, alpha="basic", expiries=None, caps=None, with_collide=True, 
             if w == 1 and alpha == "basic":
                 al = "weights" if cap in (1, 2) else "basic"
             base = dict(kind=kind, cap=cap, w=w, hash=h, alpha=al, **ex)
+            # the by-value alphabets have four weights per key: two keys keep them tractable
+            # (multi-victim situations with more keys are in the LRU spaces of C12/C13)
+            kU, kS = (2, 2) if (al == "weights" and not thorough) else (keysU, keysS)
             if kind == "U":
                 d = dU if dU is not None else (8 if thorough else 6)
-                if al == "weights":
+                if al == "weights" and thorough:
                     d -= 1
-                kw = dict(base, keys=keysU, D=d, A=(a if a is not None else (2 if thorough else 1)))
+                kw = dict(base, keys=kU, D=d, A=(a if a is not None else (2 if thorough else 1)))
                 out.append(seqjob(name(prefix, kw), **kw))
             else:
                 for rg in regimes():
                     if rg["beyond"] == 0 and h == "collide":
                         continue
                     d = dS if dS is not None else (7 if thorough else 6)
-                    if al == "weights":
+                    if al == "weights" and thorough:
                         d -= 1
-                    kw = dict(base, keys=keysS, D=d, Q=(q if q is not None else (3 if thorough else 2)),
+                    kw = dict(base, keys=kS, D=d, Q=(q if q is not None else (3 if thorough else 2)),
                               A=(a if a is not None else (2 if thorough else 1)), **rg)
                     out.append(seqjob(name(prefix, kw), **kw))
     return out
@@ -208,7 +211,7 @@ def jobs_for(prop, tier):
     b = 3 if thorough else 2
     loom = [{"id": "loom-atomic-instant", "argv": ["all"], "bin": "loom"}]
     if prop == "C02":
-        j = sched("c02", tier, b, 16) + sched("c07", tier, b, 2) + sched("c16", tier, b, 2) + loom
+        j = sched("c02", tier, b, 16) + sched("c02w", tier, b, 8) + sched("c02t", tier, b, 8) + sched("c07", tier, b, 2) + sched("c16", tier, b, 2) + loom
     elif prop == "C09":
         j = sched("c09", tier, 2 if thorough else 1, 8, 20000) + sched("c02", tier, 2, 16) + sched("c07", tier, 2, 2)
     elif prop == "C07":
@@ -218,7 +221,9 @@ def jobs_for(prop, tier):
     elif prop == "C04":
         j = j + sched("c04", tier, 2, 2) + [{"id": "overshoot", "argv": ["overshoot"]}]
     elif prop in ("C03", "C08", "C10", "C11"):
-        j = j + sched("c02", tier, 2, 16)
+        j = j + sched("c02", tier, 2, 16) + sched("c02w", tier, 2, 8)
+    elif prop == "C06":
+        j = j + sched("c02t", tier, 2, 8)
     return j
 
 
